@@ -48,7 +48,9 @@ ASSUMPTIONS = [
     "MediaWiki transclusion rules agrees (no onlyinclude inside noinclude, no self-closing include tags, no stray closers)",
     "titles carry the local namespace prefix of the language data (as real dumps do); only namespaces present in the language data",
     "pages whose title ends in /documentation or contains /testcases are excluded in every namespace; kept models: wikitext, "
-    "Scribunto, json; redirects are kept whatever their model (DESIGN.md C12)",
+    "Scribunto, json -- redirect pages included (the statement excludes the other content models without exception)",
+    "'templates reduced to their includable part' is read as: wikitext pages of the Template namespace; a json / Scribunto page "
+    "that lives in the Template namespace keeps its exact text",
     "characters that XML 1.0 cannot carry are not generated; text nodes stay below libxml2's 10 MB limit (MediaWiki's page limit is 2 MiB)",
     "interwiki map fetch stubbed (no network)",
     "second ingestion into a non-empty store: rows of the earlier dump stay unless the later dump stores the same (title, ns) "
@@ -72,7 +74,8 @@ def floors(tier):
     f = {"oracle.table.process_dump": 300, "oracle.table.parse_dump_xml": 300, "oracle.table.second-connection": 50,
          "oracle.includable.selfcheck": 1000,
          "counters.excluded.ns-not-selected": 100, "counters.excluded.documentation": 50, "counters.excluded.testcases": 50,
-         "counters.excluded.model": 50, "counters.kept.redirect": 50, "counters.kept.template": 200, "counters.kept.module": 100,
+         "counters.excluded.model": 50, "counters.excluded.model.redirect-page": 30, "counters.kept.template-ns-non-wikitext": 60,
+         "counters.kept.template-ns-non-wikitext.with-include-markup": 20, "counters.kept.redirect": 50, "counters.kept.template": 200, "counters.kept.module": 100,
          "counters.dup.pairs": 50, "counters.dup.last-wins-decides": 20, "counters.default.provided-by-dump": 20,
          "counters.default.added": 500,
          "counters.opt.multistream": 20, "counters.opt.decomp=py": 20, "counters.opt.xmlns=none": 20, "counters.opt.xmlns=0.11": 20,
@@ -279,13 +282,12 @@ def body_feats(t):
         return ["empty"]
     if t != t.strip():
         f.append("edge-ws")
-    if "<!--" in t:
-        f.append("comment")
-    if re.search(r"(?i)<\s*/?\s*(noinclude|onlyinclude|includeonly)", t):
-        f.append("include-tag")
+    rest = re.sub(r"(?i)<!--|-->|<\s*/?\s*(noinclude|onlyinclude|includeonly)\s*/?>?", "", t)
+    if rest != t:
+        f.append("include-markup")   # comment opener or include tag: what the template reduction acts on
     if "]]>" in t:
         f.append("cdata-end")
-    if re.search(r"[&\"'<>]", t):
+    if re.search(r"[&\"'<>]", rest):
         f.append("xml-special")
     if "\r" in t:
         f.append("cr")
@@ -396,7 +398,7 @@ class Minimiser:
         hit.sort(key=lambda d: _prio(d["rule"]))
         return hit
 
-    def minimise(self, pages, opts, route, uid, rule0):
+    def minimise(self, pages, opts, route, uid, rule0, _nested=False):
         pages = [dict(p) for p in pages]
         opts = dict(opts)
         lang = opts["lang"]
@@ -418,6 +420,35 @@ class Minimiser:
                 return [p for p in pages if p["uid"] in keep]
             others = _ddmin(others, lambda sel: test(with_t(sel)), B)
             pages = with_t(others)
+        # A+. blame: when another page of the witness is wrong all by itself, it is the culprit (e.g. a page that must not
+        # be stored but is, and thereby overwrites / shadows the page the disagreement was first attributed to)
+        if len(pages) > 1:
+            for c in pages:
+                if c["uid"] != uid:
+                    B[0] -= 1
+                    if self.bad([c], opts, route, c["uid"], rule0):
+                        pages, uid = [c], c["uid"]
+                        break
+        # A++. big step first: the page reduced to its discrete attributes, alone, in a plain English dump, fresh context
+        if len(pages) == 1 and pages[0]["uid"] == uid:
+            p0 = pages[0]
+            en = G.nsdata("en")["names"]
+            plain_opts = {"lang": "en", "selected": sorted(en), "xmlns": "0.10", "siteinfo": False, "extras": False,
+                          "indent": False, "splits": [], "decomp": "bzcat", "level": 9}
+            red = p0.get("redirect") is not None
+            q0 = {"uid": uid, "title": "P", "ns": 0, "model": p0["model"], "text": "x", "redirect": "R" if red else None}
+            cands = [q0]
+            if p0["ns"] != 0 and p0["ns"] in en:
+                q1 = dict(q0, ns=p0["ns"], title=G.prefix("en", p0["ns"]) + "P")
+                cands.append(q1)
+                if not red:
+                    cands.append(dict(q1, text=p0["text"]))
+            elif not red:
+                cands.append(dict(q0, text=p0["text"]))
+            for q in cands:
+                if test([q], plain_opts):
+                    pages, opts, lang = [q], plain_opts, "en"
+                    break
         # A'. what the context did before the ingestion
         pre = opts.get("pre")
         if pre:
@@ -494,7 +525,12 @@ class Minimiser:
             one = {u}
             for _pass in range(2):   # model and redirect state depend on each other (a redirect is kept whatever its model)
                 if cur(u)["model"] != "wikitext":
-                    attempt(one, model="wikitext")
+                    # (a non-wikitext Template-namespace body may lie outside the unambiguous include-tag language: it can
+                    # become a wikitext template only together with a plain body)
+                    unsafe = cur(u)["ns"] == M.TEMPLATE_NS and cur(u).get("redirect") is None
+                    ok = attempt(one, model="wikitext", text="x") if unsafe else attempt(one, model="wikitext")
+                    if not ok and cur(u)["model"] in M.KEPT_MODELS:
+                        attempt(one, model="json")   # one canonical non-wikitext kept model
                 if cur(u).get("redirect") is not None:
                     if not attempt(one, redirect=None, text="x"):
                         attempt(one, redirect="R")
@@ -513,7 +549,7 @@ class Minimiser:
             p = cur(u)
             if p.get("redirect") is None and p["text"] != "x":
                 if not attempt(one, text="x"):
-                    if p["ns"] == M.TEMPLATE_NS:
+                    if p["ns"] == M.TEMPLATE_NS and p["model"] == "wikitext":
                         # keep the body inside the unambiguous include-tag language: whole-feature removers only
                         for fn in (lambda t: t.strip(), lambda t: re.sub(r"(?s)<!--.*?-->", "", t),
                                    lambda t: re.sub(r"(?is)<(/?)(noinclude|includeonly|onlyinclude)\s*>", r"(\1\2)", t),
@@ -533,7 +569,12 @@ class Minimiser:
                                 t = t[h:]
                             else:
                                 break
-                        chars = _ddmin(list(t), lambda cs: test(edit(one, text="".join(cs))), B)
+                        # tokens first (markup, blanks, words), then characters
+                        toks = re.findall(r"(?s)<!--|-->|</?\w+\s*/?>|\s+|\w+|.", t)
+                        toks = _ddmin(toks, lambda ts: test(edit(one, text="".join(ts))), B)
+                        attempt(one, text="".join(toks))
+                        t = "".join(toks)
+                        chars = list(t) if len(t) > 60 else _ddmin(list(t), lambda cs: test(edit(one, text="".join(cs))), B)
                         attempt(one, text="".join(chars))
                         chars = _neutral(chars, "x", lambda cs: test(edit(one, text="".join(cs))))
                         attempt(one, text="".join(chars))
@@ -564,6 +605,11 @@ class Minimiser:
             if test(pp, o2):
                 pages, opts, lang = pp, o2, "en"
         pages = neutralise_main_titles(pages)
+        if len(pages) > 1 and not _nested:
+            for c in pages:
+                B[0] -= 1
+                if self.bad([c], opts, route, c["uid"], rule0):
+                    return self.minimise([c], opts, route, c["uid"], rule0, _nested=True)
         # D. route
         other = ROUTES[1 - ROUTES.index(route)]
         route_tag = None if test(pages, opts, other) else route
@@ -683,6 +729,7 @@ class Monitor:
         self.obs = obs
         self.runner = Runner()
         self.memo = {}
+        self.jmemo = {}
         self.main_case = None
         self.min_spent = 0.0
         self.min_budget = {"quick": 150.0, "thorough": 1500.0}.get(tier, 150.0)
@@ -728,6 +775,48 @@ class Monitor:
                 return {"pages": small, "opts": opts, "route": route, "uid": None, "rule": "main-prefix"}
         return self.main_case
 
+    PLAIN = {"lang": "en", "xmlns": "0.10", "siteinfo": False, "extras": False, "indent": False, "splits": [], "decomp": "bzcat", "level": 9}
+
+    def quick_sign(self, d, pages, opts, route):
+        """Cheap path before the full minimisation: a page involved in the disagreement (or sharing its title) reduced to
+        its discrete attributes (namespace, model, redirect or not; title 'P'; body 'x', then its own body), alone, in a
+        plain English dump ingested by a fresh context.  When that still disagrees with the reference, the page is wrong
+        all by itself and is minimised / signed from there (memoised on the discrete attributes)."""
+        if not d["uids"]:
+            return None
+        lang = opts["lang"]
+        en = G.nsdata("en")["names"]
+        plain = dict(self.PLAIN, selected=sorted(en))
+        inv = [p for p in pages if p["uid"] in d["uids"]]
+        keys = {(p["title"], p["ns"]) for p in inv}
+        inv += [p for p in pages if (p["title"], p["ns"]) in keys and p not in inv]
+        mini = Minimiser(self.runner)
+        for p in inv:
+            red = p.get("redirect") is not None
+            ns = p["ns"] if p["ns"] in en else 0
+            q0 = {"uid": 0, "title": "P", "ns": 0, "model": p["model"], "text": "x", "redirect": "R" if red else None}
+            cands = [q0] + ([dict(q0, ns=ns, title=G.prefix("en", ns) + "P")] if ns else [])
+            for q in cands:
+                key = ("jump", q["ns"], q["model"] if q["model"] in M.KEPT_MODELS else "(excluded model)", red)
+                if key not in self.jmemo:
+                    hits = mini.bad([q], plain, route, 0, d["rule"])
+                    self.jmemo[key] = Minimiser(self.runner).minimise([q], plain, route, 0, hits[0]["rule"]) if hits else None
+                    if hits:
+                        self.obs.count("minimisations")
+                if self.jmemo[key]:
+                    return self.jmemo[key]
+            if not red and p["text"] != "x":
+                q = dict(cands[-1], text=p["text"])
+                hits = mini.bad([q], plain, route, 0, d["rule"])
+                if hits:
+                    key = ("jump-body", hits[0]["rule"], hits[0].get("hint"), q["ns"], q["model"], tuple(f for f in body_feats(q["text"]) if f in ("include-markup", "edge-ws", "empty", "large")))
+                    if key not in self.jmemo:
+                        self.obs.count("minimisations")
+                        self.jmemo[key] = Minimiser(self.runner).minimise([q], plain, route, 0, hits[0]["rule"])
+                    if self.jmemo[key]:
+                        return self.jmemo[key]
+        return None
+
     def handle(self, diffs, pages, opts, info, route, gen, second=False):
         explained, (pages2, diffs) = split_by_main_prefix(self.runner, diffs, pages, opts, route, second)
         for d in explained:
@@ -738,6 +827,12 @@ class Monitor:
         for d in diffs:
             ck = self.coarse(d, pages, opts, info, route)
             res = self.memo.get(ck)
+            if res is None and self.min_spent <= self.min_budget:
+                t0 = time.time()
+                res = self.quick_sign(d, pages, opts, route)
+                self.min_spent += time.time() - t0
+                if res is not None:
+                    self.obs.count("disagreements-signed-by-quick-path")
             if res is None and self.min_spent > self.min_budget:
                 # only on trees with very many different disagreements: report the rest un-minimised
                 self.obs.count("disagreements-reported-unminimised")
@@ -812,8 +907,14 @@ class Monitor:
                           "kept.template" if p["ns"] == 10 else "kept.module" if p["ns"] == nd["module_id"] else
                           "kept.main" if p["ns"] == 0 else "kept.other-ns")
                 obs.count("kept.model=" + p["model"])
+                if p["ns"] == 10 and p["model"] != "wikitext" and p.get("redirect") is None:
+                    obs.count("kept.template-ns-non-wikitext")
+                    if "body:include-markup" in fe:
+                        obs.count("kept.template-ns-non-wikitext.with-include-markup")
             else:
                 obs.count("excluded." + r)
+                if r == "model" and p.get("redirect") is not None:
+                    obs.count("excluded.model.redirect-page")
             k = (p["title"], p["ns"])
             if k in seen and seen[k].get("phase") == 0 and p.get("phase") != 0:
                 obs.count("dup.across-dumps")
